@@ -113,7 +113,7 @@ impl Property for C13 {
     fn assumptions() -> Vec<String> {
         vec![
             "SHA-256d and HASH160 HMACs are HMAC over the composite hash with block size 64 (what `Hmac<Sha256d>` / `Hmac<Hash160>` mean), as DESIGN §3 C13 states".into(),
-            "after a reversed digest is finalised with reset, the state is fresh but stays in reversed mode (the adapter only resets the engine); the fresh-state check accepts the second digest in the adapter's mode".into(),
+"a reset (explicit or through finalize_*_reset) returns an adapter to its initial state, which for an adapter obtained from reverse() is the reversed mode: the digest of the next message must again be the byte reversal".into(),
         ]
     }
 
@@ -269,12 +269,13 @@ impl Property for C13 {
                     return Err(failure("digest_adapter", format!("kind {} chunks {:?} reverse {} finish {}: {}", kind % 5, parts.iter().map(|p| p.len()).collect::<Vec<_>>(), reverse, finish % 4, hex::encode(got)), hex::encode(want)));
                 }
                 if let Some(a) = after {
-                    // a fresh state digests the second message alone; whether a reversed adapter stays in
-                    // reversed mode after a reset is not part of the statement, both are accepted
-                    let w = want_second.clone();
-                    let mut wr = w.clone();
-                    wr.reverse();
-                    ensure!(a == w || (*reverse && a == wr), "digest_adapter_reset_leaves_fresh_state", hex::encode(&a), hex::encode(&w));
+                    // Reset returns the adapter to its initial state: the second message alone is digested, in the
+                    // mode the adapter was created in (a reversed adapter stays reversed)
+                    let mut w = want_second.clone();
+                    if *reverse {
+                        w.reverse();
+                    }
+                    ensure!(a == w, "digest_adapter_reset_leaves_fresh_state", hex::encode(&a), hex::encode(&w));
                 }
                 o.nt_if(parts.len() >= 2, "chunks>=2");
                 o.nt_if(m.len() >= 56, "msg>=56");
